@@ -1004,12 +1004,14 @@ def guardedDecrease (W U : Nat) (m : Market) (c : PerpCfg) (pr : Prices) (p : Po
       match fb with
       | none => .ok (m', p', r)
       | some f0 =>
-        match pnlFactorWithPoolValue W U m' pr p.isLong true, toSigned W (m'.cfg.pnlFactor .minAfterAdl) with
-        | some (f1, _), some mn =>
-          if ¬ (f0 > f1) then .error .invalidAdl
-          else if ¬ (f1 ≥ mn) then .error .invalidAdl
-          else .ok (m', p', r)
-        | _, _ => .error (.model .fail)
+        -- (source order: factor after, `require_gt!`, then the configured minimum, `require_gte!`)
+        match pnlFactorWithPoolValue W U m' pr p.isLong true with
+        | none => .error (.model .fail)
+        | some (f1, _) =>
+          if ¬ (f0 > f1) then .error .invalidAdl else
+          match toSigned W (m'.cfg.pnlFactor .minAfterAdl) with
+          | none => .error (.model .fail)
+          | some mn => if ¬ (f1 ≥ mn) then .error .invalidAdl else .ok (m', p', r)
 
 /-! ### fee-state updates on the market -/
 
@@ -1058,5 +1060,13 @@ def marketUpdateBorrowing (W U : Nat) (m : Market) (rc : RateCfg) (pr : Prices) 
   | .error .prices => .error .prices
   | .error _ => .error .fail
   | .ok (nl, ns) => .ok { m with clockBorrowing := ck, borrowingFactor := ⟨nl, ns⟩ }
+
+/-- the perp inputs of `pool_value` (`borrowing_factor_per_second` of the two sides at these
+prices) for a market WITH open interest; an error here makes every `pool_value` call fail. -/
+def perpInOf (W U : Nat) (m : Market) (rc : RateCfg) (pr : Prices) : Option PerpIn :=
+  match borrowingFactorPerSecond W U rc.common rc.sideL true (borrowViewOf m pr true),
+        borrowingFactorPerSecond W U rc.common rc.sideS false (borrowViewOf m pr false) with
+  | .ok l, .ok s => some ⟨l, s⟩
+  | _, _ => none
 
 end Gmx.Perp
